@@ -9,7 +9,7 @@
    Names clash on purpose (same function names in both files): everything from the hand model is qualified. *)
 From Coq Require Import ZArith List Bool Lia ZifyBool.
 From Verif Require Import PyBase JavaBigInteger VIntCoding MarshalGen BytesBE Marshal_varint Marshal_vint Marshal_vints.
-From Verif Require MarshalModel CassandraSpecInt Marshal_proofs Vint_proofs.
+From Verif Require MarshalModel CassandraSpecInt Marshal_proofs Vint_proofs MarshalGen_proofs.
 Import ListNotations.
 Local Open Scope Z_scope.
 
@@ -342,7 +342,37 @@ Proof.
   exact (G (S (length bs)) bs [] [] Hb ltac:(lia) E).
 Qed.
 
+(* ------------------------------------------------------------------ the two independent VIntCoding specs agree *)
+Lemma mask_form n : 0 <= n <= 8 -> 255 - Z.shiftr 255 n = (2 ^ n - 1) * 2 ^ (8 - n).
+Proof. intros H. enum8 H; reflexivity. Qed.
+
+Theorem spec_uvint_uvint_bytes : forall v, 0 <= v < 2 ^ 64 -> CassandraSpecInt.spec_uvint v = uvint_bytes v.
+Proof.
+  intros v Hv. unfold CassandraSpecInt.spec_uvint. cbv zeta.
+  assert (Hsz : CassandraSpecInt.spec_uvint_size v = vint_extra v + 1).
+  { rewrite <- (MarshalGen_proofs.java_vint_size_eq v Hv). unfold CassandraSpecInt.spec_uvint_size, java_vint_size, CassandraSpecInt.bitlen.
+    assert (Hl : 0 < Z.lor v 1).
+    { assert (0 <= Z.lor v 1) by (apply Z.lor_nonneg; lia).
+      destruct (Z.eq_dec (Z.lor v 1) 0) as [E|]; [apply Z.lor_eq_0_iff in E; lia|lia]. }
+    destruct (Z.lor v 1 <=? 0) eqn:E; [lia|]. rewrite Z.shiftr_div_pow2 by lia. change (2 ^ 6) with 64.
+    f_equal. lia. }
+  rewrite Hsz. destruct (vint_extra_char v ltac:(lia)) as (n & Hn & Hn8 & Hlt & Hge). rewrite Hn.
+  destruct (Z.of_nat n + 1 =? 1) eqn:E1.
+  - assert (n = O) by lia. subst n. specialize (Hlt ltac:(lia)). change (2 ^ (7 * (Z.of_nat 0 + 1))) with 128 in Hlt.
+    rewrite uvint_bytes_small by lia. reflexivity.
+  - replace (Z.to_nat (Z.of_nat n + 1)) with (S n) by lia. rewrite spec_be_be_bytes, be_bytes_head.
+    replace (Z.of_nat n + 1 - 1) with (Z.of_nat n) by lia.
+    destruct (high_bits_small v n ltac:(lia) Hn8 ltac:(lia) Hlt) as [Ha Hb].
+    destruct (prefix_form (Z.of_nat n) ltac:(lia)) as (_ & Hpf & _).
+    assert (Hpk : 0 < 2 ^ (8 - Z.of_nat n)) by (apply pow2_pos; lia).
+    assert (Hle : 2 ^ (8 - Z.of_nat n) <= 2 ^ 8) by (apply pow2_le; lia). change (2 ^ 8) with 256 in Hle.
+    rewrite (Z.mod_small (Z.shiftr v (8 * Z.of_nat n))) by lia.
+    rewrite mask_form by lia. rewrite lor_disjoint_add by lia.
+    unfold uvint_bytes, vint_first_byte. cbv zeta. rewrite Hn, Nat2Z.id, <- Hpf. f_equal. lia.
+Qed.
+
 Print Assumptions bridge_varint_pack.
+Print Assumptions spec_uvint_uvint_bytes.
 Print Assumptions bridge_varint_unpack.
 Print Assumptions bridge_uvint_pack.
 Print Assumptions bridge_uvint_unpack.
